@@ -228,6 +228,8 @@ package hessian
 //@   requires flag == -1 || (0 <= flag && flag <= 255)
 //@   assigns @pos, @E, @declared
 //@   loop 1 invariant [C03,C09:str-chunk-own-length] len(buf) == @declared
+//@   loop 1 invariant [C14,C06:str-consumes] flag == -1 ==> @pos >= old(@pos) + 1
+//@   ensures [C14,C06:str-consumes] flag == -1 && err == nil ==> @pos >= old(@pos) + 1
 //@   proves [C03,C06:str-ends-at-final-chunk] err == nil && @pos < len(@in) && tag != 'N' ==> tag == 'S' || tag <= 0x1f || (0x30 <= tag && tag <= 0x33)
 
 //@ func decodeBinaryValue
